@@ -12,7 +12,8 @@
     * otherwise the longest run of digits is converted; no digit: 0 is stored and failbit set;
       a value above 2^64−1: 2^64−1 is stored and failbit set;
     * once failbit is set every later extraction is a no-op.
-  (Signs and locale grouping are not modelled: `operator<<` never produces them.)
+  (Classic stream only; signs, bases, widths and locale grouping: Vita/C07/Stream.lean, whose classic
+  instance this is – `put_classic` in Props.lean.)
 -/
 import Vita.Common.Rng
 import Vita.C07.Syntax
